@@ -155,6 +155,39 @@ func cloneKeys(keys []ech.Key) []ech.Key {
 	return out
 }
 
+// interleavedFirst: connection A's first record read as header + rest, connection B opened and read in between; the
+// bytes A delivers must be what it delivers on its own.
+func interleavedFirst(recA []byte, keysA []ech.Key, recB []byte, keysB []ech.Key, alone []byte) (diff string) {
+	defer func() {
+		if p := recover(); p != nil {
+			diff = fmt.Sprint("panic (interleaved connections): ", p)
+		}
+	}()
+	a, err := ech.NewConn(context.Background(), newScriptConn(recA), keyOptions(keysA)...)
+	if err != nil {
+		return ""
+	}
+	hdr := make([]byte, 5)
+	if _, err := io.ReadFull(a, hdr); err != nil {
+		return ""
+	}
+	if b, err := ech.NewConn(context.Background(), newScriptConn(recB), keyOptions(keysB)...); err == nil {
+		buf := make([]byte, 70000)
+		io.ReadAtLeast(b, buf, 5)
+	}
+	rest := make([]byte, 70000)
+	n, _ := io.ReadAtLeast(a, rest, 1)
+	got := append(hdr, rest[:n]...)
+	if len(alone) >= 5 && !bytes.Equal(got[3:], alone[3:]) {
+		k := 0
+		for k < len(got) && k < len(alone) && got[k] == alone[k] {
+			k++
+		}
+		return fmt.Sprintf("first record read as header + rest with another connection opened in between differs at offset %d from what the connection delivers on its own", k)
+	}
+	return ""
+}
+
 func runNewConnInner(record []byte, keys []ech.Key) (o obsNewConn) {
 	sc := newScriptConn(record)
 	keysBefore := cloneKeys(keys)
@@ -167,9 +200,7 @@ func runNewConnInner(record []byte, keys []ech.Key) (o obsNewConn) {
 		}
 	}()
 	var opts []ech.Option
-	if keys != nil {
-		opts = append(opts, keyOptions(keys)...)
-	}
+	opts = append(opts, keyOptions(keys)...)
 	c, err := ech.NewConn(context.Background(), sc, opts...)
 	sc.mu.Lock()
 	o.Alert = bytes.Clone(sc.w.Bytes())
@@ -279,6 +310,8 @@ func TestEchHelloCases(t *testing.T) {
 	w := newNDWriter(t, out)
 	defer w.Close()
 	nEval := 0
+	var prevRec []byte
+	var prevKeys []ech.Key
 	for ci := range cases {
 		c := &cases[ci]
 		keys := kr.serverKeys(c.Keys)
@@ -302,6 +335,16 @@ func TestEchHelloCases(t *testing.T) {
 			r := echResult{Key: c.key(), Opts: fmt.Sprintf("%+v", eo), Obs: o, Diff: diff}
 			if diff != "" {
 				r.Case, r.Sent = c, fmt.Sprintf("%x", rec)
+			}
+			// connections do not share state: the first record of this connection read in two steps (header, then the
+			// rest - what every TLS stack does), with another connection's NewConn and Read in between
+			if diff == "" && o.Kind == "accept" && mode != "bits" {
+				if prevRec != nil {
+					if d := interleavedFirst(rec, keys, prevRec, prevKeys, o.First); d != "" {
+						r.Diff, r.Case, r.Sent = d, c, fmt.Sprintf("%x", rec)
+					}
+				}
+				prevRec, prevKeys = rec, keys
 			}
 			// every single-bit flip of the outer ClientHello body must prevent acceptance (C02)
 			if mode == "bits" && diff == "" && c.Res.Kind == "accept" {
